@@ -104,6 +104,33 @@ def unescape_rust(s):
     return bytes(s, 'utf-8').decode('unicode_escape').encode('latin-1') if '\\' in s else s.encode('utf-8')
 
 
+def const_table(*sources):
+    """named constants with literal values: NAME -> bytes (strings) or int"""
+    tab = {}
+    for src in sources:
+        for m in re.finditer(r'const\s+([A-Z_][A-Z0-9_]*)\s*:\s*[^=]+?=\s*(b?r(#*)"(.*?)"\3|b?"((?:[^"\\]|\\.)*)"|[0-9][0-9_]*)\s*;', src, re.S):
+            name = m.group(1)
+            if m.group(4) is not None and m.group(2).lstrip('b').startswith('r'):
+                tab[name] = m.group(4).encode('utf-8')
+            elif m.group(5) is not None:
+                tab[name] = unescape_rust(m.group(5))
+            else:
+                tab[name] = int(m.group(2).replace('_', ''))
+    return tab
+
+
+def resolve(tok, tab):
+    """a string literal or a named constant -> bytes, else None"""
+    tok = tok.strip()
+    m = re.fullmatch(r'b?"((?:[^"\\]|\\.)*)"', tok)
+    if m:
+        return unescape_rust(m.group(1))
+    m = re.fullmatch(r'(?:Self::|self::|crate::[a-z_:]*)?([A-Z_][A-Z0-9_]*)', tok)
+    if m and isinstance(tab.get(m.group(1)), bytes):
+        return tab[m.group(1)]
+    return None
+
+
 def struct_fields(src, name):
     m = re.search(r'((?:#\[[^\]]*\]\s*)*)pub(?:\(crate\))?\s+struct\s+' + name + r'\s*\{([^}]*)\}', src)
     if not m:
@@ -131,92 +158,120 @@ def main():
     java = strip_comments(non_test(read('src/java.rs')))
     stack = strip_comments(non_test(read('src/stacktrace.rs')))
 
+    # ---- hard facts: format version and magic.  Read from the source; when the source spells them in a way
+    # the translator does not understand, they are OBSERVED instead: `vharness facts` writes an empty mapping
+    # with the implementation and reports the first two words of the file.
+    version = None
+    mb = None
     m = re.search(r'const\s+PRGCACHE_VERSION\s*:\s*u32\s*=\s*([0-9_]+)\s*;', raw)
-    if not m:
-        raise Missing("PRGCACHE_VERSION")
-    facts.append(f"Definition cache_version : N := {int(m.group(1).replace('_', ''))}.")
-
+    if m:
+        version = int(m.group(1).replace('_', ''))
     m = re.search(r'const\s+PRGCACHE_MAGIC_BYTES\s*:\s*\[u8;\s*4\]\s*=\s*\*b"((?:[^"\\]|\\.)*)"\s*;', raw)
-    if not m:
-        raise Missing("PRGCACHE_MAGIC_BYTES")
-    mb = unescape_rust(m.group(1))
-    if len(mb) != 4:
-        raise Missing("PRGCACHE_MAGIC_BYTES is not 4 bytes")
-    if not re.search(r'const\s+PRGCACHE_MAGIC\s*:\s*u32\s*=\s*u32::from_le_bytes\(PRGCACHE_MAGIC_BYTES\)', raw):
-        raise Missing("PRGCACHE_MAGIC is no longer u32::from_le_bytes(PRGCACHE_MAGIC_BYTES)")
-    if not re.search(r'const\s+PRGCACHE_MAGIC_FLIPPED\s*:\s*u32\s*=\s*PRGCACHE_MAGIC\.swap_bytes\(\)', raw):
-        raise Missing("PRGCACHE_MAGIC_FLIPPED is no longer PRGCACHE_MAGIC.swap_bytes()")
+    if m and len(unescape_rust(m.group(1))) == 4 and \
+            re.search(r'const\s+PRGCACHE_MAGIC\s*:\s*u32\s*=\s*u32::from_le_bytes\(PRGCACHE_MAGIC_BYTES\)', raw):
+        mb = unescape_rust(m.group(1))
+    source = "source"
+    if version is None or mb is None:
+        harness = os.path.join(os.path.dirname(os.path.abspath(__file__)), "..", "build", "target", "release", "vharness")
+        try:
+            import subprocess
+            out = subprocess.run([harness, "facts"], stdout=subprocess.PIPE, timeout=60).stdout.decode()
+            om = re.search(r'magic_bytes=(\d+),(\d+),(\d+),(\d+)', out)
+            ov = re.search(r'version=(\d+)', out)
+            if om and ov:
+                mb = bytes(int(x) for x in om.groups())
+                version = int(ov.group(1))
+                source = "observed (vharness facts)"
+        except Exception as e:  # noqa: BLE001
+            raise Missing(f"PRGCACHE_VERSION / PRGCACHE_MAGIC_BYTES unreadable in the source and not observable: {e}")
+    if version is None or mb is None:
+        raise Missing("PRGCACHE_VERSION / PRGCACHE_MAGIC_BYTES")
+    facts.append(f"(* format constants: {source} *)")
+    facts.append(f"Definition cache_version : N := {version}.")
     facts.append(f"Definition cache_magic_bytes : list N := {coq_bytes(mb)}.")
 
     for name, coqname in (("Header", "header_fields"), ("Class", "class_fields"), ("Member", "member_fields")):
-        fs = struct_fields(raw, name)
-        facts.append(f"Definition {coqname} : list string := [" + '; '.join(coq_string(f) for f in fs) + "].")
+        try:
+            fs = struct_fields(raw, name)
+            facts.append(f"Definition {coqname} : option (list string) := Some ([" + '; '.join(coq_string(f) for f in fs) + "]).")
+        except Missing as e:
+            facts.append(f"Definition {coqname} : option (list string) := None.  (* {e} *)")
 
-    # the u32::MAX sentinel defaults of Class
+    # the sentinel defaults of Class (u32::MAX or a named constant for it)
+    tab0 = const_table(raw, cmod)
+    for mm in re.finditer(r'const\s+([A-Z_][A-Z0-9_]*)\s*:\s*u32\s*=\s*u32::MAX\s*;', raw + cmod):
+        tab0[mm.group(1)] = 4294967295
+    defaults = None
     m = re.search(r'impl\s+Default\s+for\s+Class\s*\{.*?Self\s*\{(.*?)\}', raw, re.S)
-    if not m:
-        raise Missing("impl Default for Class")
-    defaults = []
-    for fm in re.finditer(r'([a-z_]+)\s*:\s*([A-Za-z0-9_:]+)\s*,', m.group(1)):
-        v = fm.group(2)
-        if v == 'u32::MAX':
-            val = 4294967295
-        elif re.fullmatch(r'[0-9_]+', v):
-            val = int(v.replace('_', ''))
-        else:
-            raise Missing(f"Class::default field {fm.group(1)} = {v}")
-        defaults.append(f"({coq_string(fm.group(1))}, {val})")
-    facts.append("Definition class_defaults : list (string * N) := [" + '; '.join(defaults) + "].")
+    if m:
+        defaults = []
+        for fm in re.finditer(r'([a-z_]+)\s*:\s*([A-Za-z0-9_:]+)\s*,', m.group(1)):
+            v = fm.group(2)
+            if v == 'u32::MAX':
+                val = 4294967295
+            elif re.fullmatch(r'[0-9_]+', v):
+                val = int(v.replace('_', ''))
+            elif isinstance(tab0.get(v.split('::')[-1]), int):
+                val = tab0[v.split('::')[-1]]
+            else:
+                defaults = None
+                break
+            defaults.append(f"({coq_string(fm.group(1))}, {val})")
+    facts.append("Definition class_defaults : option (list (string * N)) := " +
+                 ("Some ([" + '; '.join(defaults) + "])" if defaults else "None") + ".")
 
-    m = re.search(r'const\s+SOURCE_FILE_PREFIX\s*:\s*&\[u8;\s*(\d+)\]\s*=\s*br(#*)"(.*?)"\2\s*;', mapping, re.S)
-    if not m:
-        raise Missing("SOURCE_FILE_PREFIX")
-    pb = m.group(3).encode('utf-8')
-    if len(pb) != int(m.group(1)):
-        raise Missing("SOURCE_FILE_PREFIX length annotation")
-    facts.append(f"Definition source_file_prefix : list N := {coq_bytes(pb)}.")
+    tab = const_table(raw, cmod, mapping, mapper, java, stack)
 
-    m = re.search(r'fn\s+java_base_types\s*\([^)]*\)[^{]*\{\s*match\s+\w+\s*\{(.*?)\n\s*\}\s*\}', java, re.S)
-    if not m:
-        raise Missing("java_base_types")
+    # ---- soft facts: `Some v` when the translator can read them, `None` otherwise.  A fact that cannot
+    # be read is not an alarm (the literal may have moved in a harmless refactoring); a fact that is read
+    # and differs from the model's constant breaks the guard lemma.  Either way the correspondence check
+    # compares behaviour.
+    def soft(name, ty, value):
+        facts.append(f"Definition {name} : option ({ty}) := " + (f"Some ({value})" if value is not None else "None") + ".")
+
+    pb = tab.get('SOURCE_FILE_PREFIX')
+    soft("source_file_prefix", "list N", coq_bytes(pb) if isinstance(pb, bytes) else None)
+
     prims = []
-    for pm in re.finditer(r"'(.)'\s*=>\s*Some\(\"([a-z]+)\"\)", m.group(1)):
+    for pm in re.finditer(r"'([A-Z])'\s*(?:=>\s*Some\(|,)\s*\"([a-z]+)\"", java):
         prims.append((ord(pm.group(1)), pm.group(2).encode()))
-    if not prims or not re.search(r'_\s*=>\s*None', m.group(1)):
-        raise Missing("java_base_types arms")
-    facts.append("Definition jvm_primitives : list (N * list N) := [" +
-                 '; '.join(f"({c}, {coq_bytes(s)})" for c, s in prims) + "].")
+    soft("jvm_primitives", "list (N * list N)",
+         ("[" + '; '.join(f"({c}, {coq_bytes(v)})" for c, v in prims) + "]") if prims else None)
 
+    window = None
     m = re.search(r'fn\s+is_valid\s*\(&self\)\s*->\s*bool\s*\{(.*?)\n    \}', mapping, re.S)
-    if not m:
-        raise Missing("is_valid")
-    tm = re.search(r'self\.iter\(\)\.take\((\d+)\)', m.group(1))
-    if not tm:
-        raise Missing("is_valid: self.iter().take(N)")
-    facts.append(f"Definition is_valid_window : N := {int(tm.group(1))}.")
+    if m:
+        tm = re.search(r'\.take\(\s*([A-Za-z_:0-9]+)\s*\)', m.group(1))
+        if tm:
+            a = tm.group(1)
+            if re.fullmatch(r'[0-9_]+', a):
+                window = int(a.replace('_', ''))
+            else:
+                v = tab.get(a.split('::')[-1])
+                window = v if isinstance(v, int) else None
+    soft("is_valid_window", "N", window)
 
-    # string constants compared against in the remapping code
-    def lits(src, pat, what):
-        found = sorted(set(re.findall(pat, src)))
-        if not found:
-            raise Missing(what)
-        return found
-    synth = set(lits(mapper, r'file_name\s*==\s*"([^"]*)"', "synthetic class literal (mapper.rs)")) | \
-        set(lits(cmod, r'file_name\s*==\s*"([^"]*)"', "synthetic class literal (cache/mod.rs)"))
-    facts.append("Definition synthetic_file_names : list (list N) := [" +
-                 '; '.join(coq_bytes(s.encode()) for s in sorted(synth)) + "].")
-    caused = set(lits(mapper, r'strip_prefix\("([^"]*)"\)', "cause prefix (mapper.rs)")) | \
-        set(lits(cmod, r'strip_prefix\("([^"]*)"\)', "cause prefix (cache/mod.rs)")) | \
-        set(lits(stack, r'strip_prefix\("([^"]*)"\)', "cause prefix (stacktrace.rs)")) | \
-        set(lits(mapper, r'writeln!\(stacktrace,\s*"([^"{]*)\{\}",\s*cause\)', "cause prefix in format_cause")) | \
-        set(lits(stack, r'write!\(f,\s*"([^"{]+)\{\}",\s*cause\)', "cause prefix in Display"))
-    facts.append("Definition cause_prefixes : list (list N) := [" +
-                 '; '.join(coq_bytes(s.encode()) for s in sorted(caused)) + "].")
-    srcfile_keys = set(lits(mapper, r'key\s*==\s*"([^"]*)"', "sourceFile key (mapper.rs)")) | \
-        set(lits(raw, r'key\s*==\s*"([^"]*)"', "sourceFile key (cache/raw.rs)")) | \
-        set(lits(mapping, r'key:\s*"([^"]*)"', "sourceFile key (mapping.rs)"))
-    facts.append("Definition source_file_keys : list (list N) := [" +
-                 '; '.join(coq_bytes(s.encode()) for s in sorted(srcfile_keys)) + "].")
+    def resolved_set(src, pat):
+        out = set()
+        for mm in re.finditer(pat, src):
+            v = resolve(mm.group(1), tab)
+            if v is not None:
+                out.add(v)
+        return out
+    synth = resolved_set(mapper, r'file_name\s*==\s*([A-Za-z_:0-9"$]+)') | resolved_set(cmod, r'file_name\s*==\s*([A-Za-z_:0-9"$]+)')
+    soft("synthetic_file_names", "list (list N)",
+         ("[" + '; '.join(coq_bytes(x) for x in sorted(synth)) + "]") if synth else None)
+    caused = set()
+    for src in (mapper, cmod, stack):
+        for v in resolved_set(src, r'strip_prefix\(\s*([A-Za-z_:0-9" ]+?)\s*\)'):
+            if v.lower().startswith(b'caused'):
+                caused.add(v)
+    soft("cause_prefixes", "list (list N)",
+         ("[" + '; '.join(coq_bytes(x) for x in sorted(caused)) + "]") if caused else None)
+    keys = resolved_set(mapper, r'key\s*==\s*([A-Za-z_:0-9"]+)') | resolved_set(raw, r'key\s*==\s*([A-Za-z_:0-9"]+)') | \
+        resolved_set(mapping, r'key:\s*([A-Za-z_:0-9"]+)\s*,')
+    soft("source_file_keys", "list (list N)",
+         ("[" + '; '.join(coq_bytes(x) for x in sorted(keys)) + "]") if keys else None)
 
     # C20: interior mutability / non-Send/Sync ingredients in the library sources
     pat = re.compile(r'\b(Cell|RefCell|OnceCell|Mutex|RwLock|Atomic[A-Z][A-Za-z0-9]*|Rc|UnsafeCell|thread_local|static\s+mut)\b')
